@@ -60,5 +60,8 @@ CountOp(h, o) == Cardinality({i \in 2..Len(h) : h[i].step.op = o})
 (* is rewritten by one pass and used by the next                                                 *)
 KeepTwoPasses(h) == CountOp(h, "hot_reload") >= 2 /\ CountOp(h, "notify") >= 2 /\ h[2].step.op = "load" /\ h[Len(h)].step.op = "hot_reload"
 
+(* some asset was actually reloaded *)
+KeepReloaded(h) == \E i \in 2..Len(h) : \E e \in h[i].snap : e.rid > 0
+
 Emit == (Len(hist) = N + 1 /\ Keep(hist)) => PrintT(<<"REPLAY", ToJson(hist)>>)
 =============================================================================
